@@ -551,6 +551,7 @@ Proof.
   - eapply driver_counts; eauto.
   - destruct H as (V & S & B & _). eapply Inv_counts_ext; eauto.
   - exact I.
+  - destruct (transition_vonly env _ _ _ _ _ H2 K) as [K1 _]. eapply (perform_counts s1); [eapply transition_counts; eauto|exact K1|unfold vstate_of; rewrite H3; reflexivity|eauto].
 Qed.
 
 (* C02 over every finite history of step operations, for instructions of any controller *)
